@@ -78,6 +78,24 @@ func RunReal(F *RFuncs, c Config, r *rand.Rand) (*Outcome, []string) {
 		}
 		return ins
 	}
+	// prefilled inner channel i: buffered, all items already in it; even ones closed, odd ones closed later
+	prefilled := func(i int) chan int {
+		n := len(c.Items[i])
+		if c.Caps[i] > n {
+			n = c.Caps[i]
+		}
+		ch := make(chan int, n)
+		for _, v := range c.Items[i] {
+			ch <- v
+		}
+		if i%2 == 0 {
+			close(ch)
+		} else {
+			seed := r.Int63()
+			go func() { jitter(rand.New(rand.NewSource(seed))); close(ch) }()
+		}
+		return ch
+	}
 	switch c.Sys {
 	case "fmap":
 		ins := mkIns()
@@ -88,6 +106,15 @@ func RunReal(F *RFuncs, c Config, r *rand.Rand) (*Outcome, []string) {
 		consume(0, o1)
 		consume(1, o2)
 	case "joincc":
+		if c.Prefill {
+			outer := make(chan (<-chan int), len(c.Items))
+			for i := range c.Items {
+				outer <- prefilled(i)
+			}
+			close(outer)
+			consume(0, F.JoinCC[c.Variant](outer))
+			break
+		}
 		ins := mkIns()
 		outer := make(chan (<-chan int), c.OCap)
 		seed := r.Int63()
@@ -114,6 +141,23 @@ func RunReal(F *RFuncs, c Config, r *rand.Rand) (*Outcome, []string) {
 			consume(0, F.JoinV3(ins[0], ins[1], ins[2]))
 		}
 	case "pipeline":
+		if c.Prefill {
+			pre := make([]chan int, len(c.Items))
+			for i := range pre {
+				pre[i] = prefilled(i)
+			}
+			f := func(a int) <-chan int {
+				b := make(chan int, len(c.Items))
+				for i := range c.Items {
+					b <- i
+				}
+				close(b)
+				return b
+			}
+			g := func(x int) <-chan int { return pre[x] }
+			consume(0, F.Pipeline(f, g)(0))
+			break
+		}
 		f := func(a int) <-chan int {
 			b := make(chan int, c.OCap)
 			idx := make([]int, len(c.Items))
@@ -301,8 +345,17 @@ func MainR(F *RFuncs) {
 					runCfg(c, reps)
 				}
 			}
+			if sys == "joincc" || sys == "pipeline" {
+				for _, c := range PrefillConfigs(sys) {
+					runCfg(c, 4*reps)
+				}
+			}
 			for i := 0; i < nc; i++ {
-				runCfg(RandomConfig(sys, rng, 4, 5, 2), reps)
+				c := RandomConfig(sys, rng, 4, 5, 2)
+				if (sys == "joincc" || sys == "pipeline") && len(c.Items) > 0 && rng.Intn(3) == 0 {
+					c.Prefill, c.OCap = true, len(c.Items)
+				}
+				runCfg(c, reps)
 			}
 		}
 	}
